@@ -137,6 +137,28 @@ def _all_equal(c: T):
     return None
 
 
+def _equal_form(c: T):
+    """(f(HOLE), polarity): the atom c is true (polarity True) / false
+    (polarity False) exactly when f(r) is the same for all results:
+    all(a == b ...) or any(a != b ...) over neighbours / against the first"""
+    f = _all_equal(c)
+    if f is not None:
+        return f, True
+    if is_call_to(c, "builtins.any") and c.args[1] and \
+            c.args[1][0].op == "comp":
+        comp = c.args[1][0]
+        elt = comp.args[1]
+        if elt.op == "cmp" and elt.args[0] == "NotEq":
+            flipped = T("call", tm.glob("builtins.all"), (T(
+                "comp", comp.args[0], T("cmp", "Eq", elt.args[1],
+                                        elt.args[2]),
+                comp.args[2], comp.args[3]),), ())
+            f = _all_equal(flipped)
+            if f is not None:
+                return f, False
+    return None
+
+
 def _keys_of(f: T) -> Optional[str]:
     """'np_arrays' / 'stats' if f(HOLE) is the key set of that dictionary of
     the result: HOLE.attr.keys(), set(HOLE.attr), HOLE.attr.keys() of a
@@ -163,9 +185,9 @@ def _key_mismatch_atoms(live: T):
     two_sided)"""
     out = []
     for a in tm.atoms(live):
-        f = _all_equal(a)
-        if f is not None and _keys_of(f):
-            out.append((a, _keys_of(f), False, True))
+        ef = _equal_form(a)
+        if ef is not None and _keys_of(ef[0]):
+            out.append((a, _keys_of(ef[0]), not ef[1], True))
             continue
         if a.op == "cmp" and a.args[0] in ("Eq", "NotEq"):
             # other.attr.keys() != first.attr.keys() inside a loop over the
@@ -331,6 +353,13 @@ def check(ctx):
                    f"the `{a}` key sets are only compared one-sidedly "
                    f"({fmt(os_[0][2])[:80]}): a result with an extra key is "
                    f"merged silently", key=f"C13.3:{a}")
+        elif rex and all(any(x.op == "exc" and "KeyError" in str(x.args[0])
+                             for x in tm.atoms(e.live)) for e in rex):
+            ctx.ob("C13.3", rex[0], False,
+                   f"differing `{a}` key sets are only noticed through a "
+                   f"KeyError of the look-ups while merging: a result that "
+                   f"has an *extra* key (or a first result with fewer keys) "
+                   f"is merged silently", key=f"C13.3:{a}")
         elif covered or not rex:
             ctx.ob("C13.3", f, False,
                    f"no ResultException depends on the equality of the "
@@ -451,23 +480,24 @@ def check(ctx):
             if id(a_) in seen:
                 continue
             seen.add(id(a_))
-            fe = _all_equal(a_)
+            ef = _equal_form(a_)
+            fe = ef[0] if ef else None
             if fe is not None and any(
                     t.op == "attr" and t.args[1] == "size"
                     for t in fe.walk()) and any(
                     t.op == "attr" and t.args[1] == "np_arrays"
                     for t in fe.walk()):
-                eqs.append(a_)
+                eqs.append((a_, ef[1]))
     ctx.require(len(eqs) >= 1, "merge_results: no decision on whether all "
                 "per-result lists of array sizes are equal found (unknown "
                 "merge-strategy idiom)")
-    EQ = eqs[0]
+    EQ, EQ_POL = eqs[0]
     ctx.ob("C13.4", f, True,
            "the merge strategy is decided by whether all per-result "
            "array-size lists are equal", key="C13.4:strategy")
     for equal in (True, False):
-        rc = Interp(prog, assume=lambda t, v=equal: v if t is EQ
-                    else None).run(f)
+        rc = Interp(prog, assume=lambda t, v=(equal == EQ_POL): v
+                    if t is EQ else None).run(f)
         ctx.analysed["configs"] += 1
         mode = "equal sizes" if equal else "different sizes"
         loops = {e.data["lid"]: e.data["iter"] for e in rc.of_kind("loop")}
@@ -684,9 +714,15 @@ def _tables(ctx, prog):
                                       for x in e.data["args"][0].walk())][0]
             kw = dict(e.data["kwargs"])
             in_loop = bool(e.loops)
-            ok = in_loop and (tm.is_const(kw.get("axis", const(0)),
-                                          "columns") or
-                              tm.is_const(kw.get("axis", const(0)), 1))
+            # ... or once, on the list that collected one frame per file
+            arg0 = Interp.unname(e.data["args"][0])
+            pe_ = per_element(arg0) if arg0.op == "comp" else None
+            collected = pe_ is not None and not pe_[3] and \
+                pe_[0] is rt[0].data["result"] and \
+                rt[0].loops and pe_[1] == rt[0].loops[-1]
+            ok = (in_loop or collected) and (
+                tm.is_const(kw.get("axis", const(0)), "columns") or
+                tm.is_const(kw.get("axis", const(0)), 1))
         if not keyed:
             if not cc:
                 ctx.undecidable("C13.6", g, "per-file frames are not "
